@@ -26,6 +26,16 @@ def make_db(seed):
     return con
 
 
+def sqlite_int_const(e):
+    """what SQLite's resolver reads as an integer constant in ORDER BY (a literal integer under any number of unary
+    signs and parentheses — it then means the K-th result column, not the value): never an ORDER BY key of a specification"""
+    if e[0] == "lit":
+        return True
+    if e[0] == "neg":
+        return sqlite_int_const(e[1])
+    return False
+
+
 class Src:
     """a FROM / JOIN item: a base table, a derived table (sub = its specification, alias required) or a WITH name"""
 
@@ -166,7 +176,7 @@ class SpecGen:
         spec["where"] = w
         spec["order"] = []
         if r.random() < 0.5:
-            cand = [i for i, (e, _) in enumerate(sel) if e[0] != "lit"]
+            cand = [i for i, (e, _) in enumerate(sel) if not sqlite_int_const(e)]
             for _ in range(r.randint(1, 2)):
                 if cand:
                     spec["order"].append((r.choice(cand), r.choice([None, "asc", "desc"])))
